@@ -43,6 +43,7 @@ func (p *c15Pub) Publish(topic string, msgs ...*message.Message) error {
 func (p *c15Pub) Close() error { return nil }
 
 type c15Log struct {
+	ptrsA   []*c15A
 	who     []int
 	gotA    []c15A
 	gotB    []c15B
@@ -97,6 +98,7 @@ func (h c15CmdHandlerA) NewEvent() any      { return &c15A{} }
 func (h c15CmdHandlerA) Handle(ctx context.Context, v any) error {
 	h.log.who = append(h.log.who, h.id)
 	h.log.gotA = append(h.log.gotA, *v.(*c15A))
+	h.log.ptrsA = append(h.log.ptrsA, v.(*c15A))
 	h.log.origOK = append(h.log.origOK, OriginalMessageFromCtx(ctx) == h.log.current)
 	if h.fail {
 		return errScripted
@@ -151,6 +153,13 @@ func HarnessC15Command() {
 	case 0:
 		vrt.Assert(len(log.who) == 1, "the handler is invoked for a message of its type")
 		vrt.Assert(log.gotA[0] == a, "with a value equal to the one sent")
+		// a second command of the same type through the same handler func: each invocation gets its own value
+		a2 := c15A{N: vrt.Int("a2.n", -1000, 1000), S: vrt.Str("a2.s")}
+		vrt.Assert(bus.Send(context.Background(), &a2) == nil && len(pub.msgs) == 2, "second command sent")
+		log.current = pub.msgs[1]
+		_ = fn(pub.msgs[1])
+		vrt.Assert(len(log.gotA) == 2 && log.gotA[1] == a2, "the second command arrives with its own value")
+		vrt.Assert(len(log.ptrsA) == 2 && *log.ptrsA[0] == a, "the value handed to the first invocation is not overwritten by a later command")
 		vrt.Assert(log.origOK[0], "the handler's context exposes the original message")
 		vrt.Assert((herr != nil) == (hfail && !ackErrors), "a handler error means Nack unless AckCommandHandlingErrors")
 	case 1, 2:
